@@ -104,6 +104,7 @@ class Oracle:
         """two named caches of one process must not touch each other's directory"""
         if obs.other_pre is None or obs.crashed or obs.busy_before or obs.busy_after:
             return None
+        w = self.w
         clause = "19c-other-cache" if self.c19 else "18g-other-cache"
         if obs.kind == "OTHER_GET":
             if obs.exc is None:
@@ -116,8 +117,17 @@ class Oracle:
                         if not (isinstance(p, str) and p.startswith("/SIMFS/othercache/")):
                             return self._v(clause, "the second named cache returned a path outside its own directory: %r" % (p,), obs)
             return None
+        if obs.other_limit is not None and obs.other_post is not None and obs.exc is None:
+            tot = sum(e[1] for p, e in obs.other_post.items()
+                      if e[0] == "f" and is_cache_name(posixpath.basename(p)) and posixpath.dirname(p) == "/SIMFS/othercache")
+            if tot > obs.other_limit:
+                return self._v(clause, "the second named cache holds %d bytes, more than its configured %d, after an "
+                               "operation (a nested request while the first cache's request was in progress?)"
+                               % (tot, obs.other_limit), obs)
         if obs.kind in ("OPEN", "REOPEN", "PURGE"):
             return None  # (re)creation of the caches writes the second cache's config
+        if obs.kind == "GET" and any(w.keys[k]["scheme"] == "chain" for k in obs.op["keys"]):
+            return None  # chained keys are fetched through the second cache
         if obs.other_pre != obs.other_post:
             return self._v(clause, "an operation on the first cache changed the second named cache's directory", obs)
         return None
@@ -398,7 +408,8 @@ class Oracle:
                                    "key %d was served as a hit but its file holds %s" % (k, self._describe(k, data)), obs)
             else:
                 exp = w.expected_bytes(k)
-                if k in self.volatile or zombies:
+                if k in self.volatile or zombies or w.keys[k]["scheme"] == "chain":
+                    # (a chained key comes out of the second cache, which may legitimately hold an older version)
                     ok = data in w.acceptable_bytes(k)
                 else:
                     ok = data == exp
@@ -415,7 +426,8 @@ class Oracle:
             for pos, k in enumerate(req):
                 has_val = ov[pos] if pos < len(ov) and ov[pos] is not None else w.keys[k].get("val")
                 if (has_val and served[pos] is not None and w.validator_policy.get("mode") == "current"
-                        and not zombies and k not in self.volatile and not obs.back_in_op):
+                        and not zombies and k not in self.volatile and not obs.back_in_op
+                        and w.keys[k]["scheme"] != "chain"):
                     # the validator in force accepts only the current version: whatever path the request took
                     # (hit, adoption of a file found on disk, fetch), a file it would reject must not be served
                     ent = post_files.get(served[pos])
@@ -429,13 +441,15 @@ class Oracle:
         # --- hits must not contact the resource; misses must -------------------------
         for r, n in fetch_count.items():
             if n > miss_per_res.get(r, 0):
-                if self.c19:
+                if self.c19 or any(w.keys[k]["scheme"] == "chain" and self._res(k) == r for k in req):
                     continue  # 18b is C18's clause; under faults retries / zombie traffic are legitimate
                 return self._v("18b", "resource %s was contacted %d times but only %d requested keys using it were not cached"
                                % (r, n, miss_per_res.get(r, 0)), obs)
         for k in misses:
             if served[req.index(k)] is None:
                 continue
+            if w.keys[k]["scheme"] == "chain":
+                continue  # fetched through the second cache, which may have served it from its own files
             r = self._res(k)
             if fetch_count.get(r, 0) == 0:
                 p = served[req.index(k)]
